@@ -15,6 +15,7 @@ func init() {
 	reg("C10_EmitTransfer", C10_EmitTransfer)
 	reg("C10_EmitNFTTransfer", C10_EmitNFTTransfer)
 	reg("C10_EmitMultiTransfer", C10_EmitMultiTransfer)
+	reg("C10_EmitMultiTransfer2X", C10_EmitMultiTransfer2X)
 	reg("C10_EmitESDTBurn", C10_EmitESDTBurn)
 	reg("C10_EmitCreateRoleTransfer", C10_EmitCreateRoleTransfer)
 	reg("C10_EmitSetUserName", C10_EmitSetUserName)
@@ -143,6 +144,20 @@ func C10_EmitMultiTransfer() {
 		o.MultiK = 0
 	}
 	o.NoCall = false
+	emitMulti(o)
+}
+
+// C10_EmitMultiTransfer2X: two items of arbitrary kinds to another shard (every item of the
+// message, not only the first, must carry its own token, nonce and quantity).
+func C10_EmitMultiTransfer2X() {
+	o := wireOpt
+	o.MultiK = 2
+	o.CrossOnly = true
+	o.NoCall = !verif.Thorough()
+	emitMulti(o)
+}
+
+func emitMulti(o Opt) {
 	s := scnMultiTransfer(o)
 	k := len(scnItems)
 	if len(s.In.Arguments) > 2+3*k {
@@ -165,7 +180,26 @@ func C10_EmitMultiTransfer() {
 		}
 		verif.Assert("message-count", new(big.Int).SetBytes(args[0]).Cmp(big.NewInt(int64(k))) == 0)
 		for i := 0; i < k; i++ {
-			verif.Assert("message-token", verif.BytesEq(args[1+3*i], s.In.Arguments[2+3*i]))
+			in := s.In.Arguments[2+3*i : 5+3*i]
+			verif.Assert("message-token", verif.BytesEq(args[1+3*i], in[0]))
+			nonce := new(big.Int).SetBytes(in[1])
+			qty := new(big.Int).SetBytes(in[2])
+			verif.Assert("message-nonce", new(big.Int).SetBytes(args[2+3*i]).Cmp(nonce) == 0)
+			if nonce.Sign() == 0 {
+				verif.Assert("message-fungible-value", new(big.Int).SetBytes(args[3+3*i]).Cmp(qty) == 0)
+			} else {
+				t := s.W.Codec.Token(args[3+3*i])
+				verif.Assert("message-payload-is-token", t != nil)
+				if t != nil {
+					verif.Assert("message-payload-has-quantity-and-metadata", t.Value != nil && t.TokenMetaData != nil)
+					if t.Value != nil {
+						verif.Assert("message-payload-quantity", t.Value.Cmp(qty) == 0)
+					}
+					if t.TokenMetaData != nil {
+						verif.Assert("message-payload-nonce", new(big.Int).SetUint64(t.TokenMetaData.Nonce).Cmp(nonce) == 0)
+					}
+				}
+			}
 		}
 		// the attached call travels unchanged
 		sameArgs("message-call", args[1+3*k:], s.In.Arguments[2+3*k:])
